@@ -208,10 +208,21 @@ class Prop(SeqProp):
             return ",".join('"' + f.replace('"', '""') + '"' for f in fs)  # every field quoted, needed or not
 
         lines = []
+        known = []  # field lists that occur in the file: later records and probes are often equal to one of them
+        _fields = fields
+
+        def fields(n=None):
+            if n is None and known and rng.random() < 0.4:
+                return list(rng.choice(known))
+            return _fields(n)
+
         for _ in range(rng.choice([0, 1, 2, 3, 5])):
             q = rng.random()
             n = k if q < 0.8 else (k + 1 if q < 0.9 else max(0, k - 1))  # a surplus field is dropped, a missing one raises
-            lines.append(line_of(fields(n)))
+            fl = _fields(n) if (n != k or not known or rng.random() < 0.7) else list(rng.choice(known))
+            if n == k:
+                known.append(fl)
+            lines.append(line_of(fl))
         lines = [l for l in lines if "\n" not in l and "\r" not in l]
         content = "".join(l + "\n" for l in lines)
         if lines and rng.random() < 0.2:
@@ -236,8 +247,15 @@ class Prop(SeqProp):
                 ops.append("reverse")
             elif q < 0.78:
                 ops.append(f"get {ri()}")
-            elif q < 0.86:
+            elif q < 0.82:
                 ops.append("recs")
+            elif q < 0.88:
+                # the inherited Sequence / MutableSequence interface (Model/RecFileSeq.lean): the comparison is on records,
+                # so a needlessly quoted source line equals the plainly written record
+                probe = fs
+                b = lambda: rng.choice(["-", str(ri())])
+                ops.append(rng.choice([f"index {probe}", f"index {probe} @ {b()}", f"index {probe} @ {b()} {b()}", f"count {probe}",
+                                       f"has {probe}", f"remove {probe}", f"remove {probe}"]))
             elif q < 0.9:
                 ops.append("len")
             elif q < 0.94:
@@ -312,6 +330,23 @@ class Prop(SeqProp):
                         out.append("ret " + show(f.pop(int(w[1])) if len(w) > 1 else f.pop()))
                     elif w[0] == "reverse":
                         f.reverse(); out.append("ok")
+                    elif w[0] == "index":
+                        fw = w[1:w.index("@")] if "@" in w else w[1:]
+                        bounds = w[w.index("@") + 1:] if "@" in w else []
+                        args = [mk(fw)]
+                        if len(bounds) >= 1:
+                            args.append(0 if bounds[0] == "-" else int(bounds[0]))
+                        if len(bounds) >= 2 and bounds[1] != "-":
+                            args.append(int(bounds[1]))
+                        out.append(f"ret {f.index(*args)}")
+                    elif w[0] == "count":
+                        out.append(f"ret {f.count(mk(w[1:]))}")
+                    elif w[0] == "has":
+                        out.append(f"ret {1 if mk(w[1:]) in f else 0}")
+                    elif w[0] == "remove":
+                        f.remove(mk(w[1:])); out.append("ok")
+                    elif w[0] == "clear":
+                        f.clear(); out.append("ok")
                     elif w[0] == "recs":
                         items = []
                         for i in range(len(f)):
@@ -439,6 +474,41 @@ class Prop(SeqProp):
                     del ref[p]
                 elif line != "err IndexError":
                     return f"op {i} `{op}`: {line!r}, a list raises IndexError"
+            elif w[0] in ("index", "count", "has", "remove"):
+                if any(r is None for r in ref):
+                    # a line that does not load may raise its load error first: which call meets it is the model's business
+                    if w[0] == "remove" and line == "ok":
+                        ref = None
+                    continue
+                fw = w[1:w.index("@")] if "@" in w else w[1:]
+                bounds = w[w.index("@") + 1:] if "@" in w else []
+                rec = [dec_str(x) for x in fw]
+                if w[0] == "index":
+                    args = [rec]
+                    if len(bounds) >= 1:
+                        args.append(0 if bounds[0] == "-" else int(bounds[0]))
+                    if len(bounds) >= 2 and bounds[1] != "-":
+                        args.append(int(bounds[1]))
+                    try:
+                        exp = f"ret {ref.index(*args)}"
+                    except ValueError:
+                        exp = "err ValueError"
+                elif w[0] == "count":
+                    exp = f"ret {ref.count(rec)}"
+                elif w[0] == "has":
+                    exp = f"ret {1 if rec in ref else 0}"
+                else:
+                    if rec in ref:
+                        ref.remove(rec); exp = "ok"
+                    else:
+                        exp = "err ValueError"
+                if line != exp:
+                    return f"op {i} `{op}`: {line!r}, the list of records gives {exp!r}"
+            elif w[0] == "clear":
+                if line == "ok":
+                    ref = []
+                else:
+                    ref = None
             elif w[0] == "reverse":
                 if line == "ok":
                     ref.reverse()
